@@ -182,7 +182,9 @@ fn cell_tol(cell: &ConvexCell<WithoutFaces>, s: &Scales) -> Tol {
         max_dv,
         tol_v: delta * surf + rel * s.vbox,
         tol_a: delta * perim + rel * s.ascale,
-        ill: !(delta <= 1e-8 * s.l),
+        // the sum over the vertices grows with the size of the cell: a cell with thousands of well-conditioned vertices is
+        // not ill-conditioned (giant cells), so the threshold scales beyond 64 vertices
+        ill: !(delta <= 1e-8 * s.l * (cell.vertices.len() as f64 / 64.).max(1.)),
     }
 }
 
@@ -365,7 +367,9 @@ fn check_faces(
         // base triangles lie in the plane of their face
         let tolp = 4. * t.max_dv + K * U * s.m;
         rep.max("c14.plane_residual_over_tol", fm.max_residual / tolp);
-        if !(fm.max_residual <= tolp) && !t.ill {
+        // (the bound adapts to the worst vertex of the cell by itself: it stays decisive on a cell whose SUMMED vertex error
+        // makes the volume comparison inconclusive, as long as the bound itself is small against the box)
+        if !(fm.max_residual <= tolp) && (!t.ill || tolp <= 1e-6 * s.l) {
             rep.violations.push(Violation::new(prop, "c14.triangle_off_plane", format!("{route}: cell {i}, face towards {:?}: a base triangle vertex is {:e} off the face's plane (tol {tolp:e})", f.right(), fm.max_residual), Some(c), json!({"cell": i, "right": f.right()})));
         }
         // the same triangles through the library's own AreaIntegral
@@ -454,6 +458,7 @@ fn main() {
     let thorough = tier == "thorough";
     let ncases = ((if thorough { 60000. } else { 3000. }) * scale) as u64;
     let szs: Vec<usize> = if thorough { vec![1, 2, 3, 4, 5, 8, 13, 27, 50, 100, 200, 400] } else { vec![1, 2, 3, 4, 5, 8, 13, 27, 50, 100] };
+    let giant: Vec<usize> = if thorough { vec![3000, 12000, 12000, 25000] } else { vec![3000, 12000] };
     let next = AtomicU64::new(0);
     let merged: Mutex<Vec<Report>> = Mutex::new(vec![]);
     // silence the default panic message flood: one line per panic
@@ -467,8 +472,15 @@ fn main() {
                 let mut local = Report::new("C14", &tier, seed);
                 loop {
                     let k = next.fetch_add(1, Ordering::Relaxed);
-                    if k >= ncases {
+                    if k >= ncases + giant.len() as u64 {
                         break;
+                    }
+                    if k >= ncases {
+                        // giant cells (about n faces, 2n vertices, 6n face-vertex connections), centre + two shell cells
+                        let c = vcore::case::shell_case("C14", &tier, seed, k - ncases, giant[(k - ncases) as usize]);
+                        one_c14("C14", &c, &mut local);
+                        local.count("giant_cell_inputs", 1);
+                        continue;
                     }
                     let o = GenOpts {
                         sizes: &szs,
